@@ -177,7 +177,8 @@ def in_c06_domain(t: str) -> bool:
         elif name == "implementation_version":
             return False
         elif name == "extra":
-            if op not in ("==", "!="):
+            # extras are PEP 508 identifiers (the property: "membership of the normalised name")
+            if op not in ("==", "!=") or not re.fullmatch(r"[A-Za-z0-9]([A-Za-z0-9._-]*[A-Za-z0-9])?", lit):
                 return False
         else:
             if op not in ("==", "!=", "in", "not in"):
